@@ -2,6 +2,7 @@ import LZ4V.Proofs.FastCap
 import LZ4V.Proofs.Arith
 import LZ4V.Proofs.FastXProof
 import LZ4V.Proofs.FastXCap
+import LZ4V.HC.HC5
 /-!
 # C09 — block compressors honour the destination-capacity contract (specification + regenerated bound part)
 -/
@@ -76,5 +77,11 @@ theorem stream_block_fits_capacity (hashOf : Array UInt8 → Bool → Nat → Na
     (blk : List UInt8) (hop : ops[k]? = some (.compress addr data acc cap)) (h : (run hashOf {} ops)[k]? = some (.block (some blk))) :
     blk.length ≤ cap :=
   run_fits hashOf ops {} [] Inv_init k addr data acc cap blk hop h
+
+/-- **HC, hash-chain levels**: whatever the match finders answer within their contract — one-shot, streaming or with a dictionary — the block is at most
+    `n + n/255 + 2` bytes, below `LZ4_compressBound(n)`: a call given the bound never needs more -/
+theorem hc_block_within_bound (hist block : List UInt8) (o : HC.Oracle) (hO : HC.OracleOK (hist ++ block) o) (fuel : Nat) (blk : List UInt8)
+    (h : HC.compressH o hist block fuel = some blk) : blk.length ≤ block.length + block.length / 255 + 2 :=
+  HC.compressH_size hist block o hO fuel blk h
 
 end LZ4V.C09
